@@ -8,6 +8,7 @@ package props
 import (
 	"bytes"
 	"encoding/binary"
+	"fmt"
 	"math/rand/v2"
 	"os"
 	"path/filepath"
@@ -959,6 +960,22 @@ func (s *c02seedSet) loadGenerated() {
 	})
 	gen(dGsub, "gsub-all-types", func() []byte { return c02gsubInfo().Encode() })
 	gen(dGpos, "gpos-types-1-4-6-7-8", func() []byte { return c02gposInfo().Encode() })
+	// one table per lookup, so that mutants of small inputs reach every subtable reader
+	single := func(dec string, info *gtab.Info) {
+		for i, l := range info.LookupList {
+			l := l
+			gen(dec, fmt.Sprintf("lookup-%d-type-%d-%T", i, l.Meta.LookupType, l.Subtables[0]), func() []byte {
+				one := &gtab.Info{
+					ScriptList:  gtab.ScriptListInfo{language.MustParse("und-Zzzz"): {Required: 0xFFFF, Optional: []gtab.FeatureIndex{0}}},
+					FeatureList: gtab.FeatureListInfo{{Tag: "test", Lookups: []gtab.LookupIndex{0}}},
+					LookupList:  gtab.LookupList{l},
+				}
+				return one.Encode()
+			})
+		}
+	}
+	single(dGsub, c02gsubInfo())
+	single(dGpos, c02gposInfo())
 	gen(dGpos, "gpos5-1lig(spec writer)", func() []byte { return c02gtabWrap(5, 0, c02gpos5(1)) })
 	gen(dGpos, "gpos5-2lig(spec writer)", func() []byte { return c02gtabWrap(5, 0, c02gpos5(2)) })
 	gen(dGpos, "gpos5-3lig(spec writer)", func() []byte { return c02gtabWrap(5, 0, c02gpos5(3)) })
